@@ -89,6 +89,7 @@ type World struct {
 func New(libAddr string) *World {
 	w := &World{LibAddr: libAddr, flags: map[string]bool{}}
 	w.NW = vnet.New(libAddr)
+	w.NW.SeqFn = func() int { return len(w.Log) }
 	if e := vrt.Cur(); e != nil {
 		e.World = w
 	}
